@@ -133,7 +133,7 @@ func (e *Engine) smtText(hyps []*Term, goal *Term, produceModel bool) string {
 	var body bytes.Buffer
 	all := append(append([]*Term{}, hyps...), goal)
 	fv := map[string]string{}
-	FreeVars(all, fv)
+	FreeVars(append(append([]*Term{}, all...), e.extraTerms...), fv)
 	for _, name := range sortedKeys(fv) {
 		fmt.Fprintf(&body, "(declare-fun %s () %s)\n", name, fv[name])
 	}
@@ -227,6 +227,9 @@ type solverCmd struct {
 var solverCmds = []solverCmd{
 	{"z3-5.1.0", func(f string, s int) []string { return []string{"/usr/local/bin/z3-new", fmt.Sprintf("-T:%d", s), f} }},
 	{"z3-4.8.12", func(f string, s int) []string { return []string{"/usr/bin/z3", fmt.Sprintf("-T:%d", s), f} }},
+	{"z3-5.1.0/seed7", func(f string, s int) []string {
+		return []string{"/usr/local/bin/z3-new", fmt.Sprintf("-T:%d", s), "smt.random_seed=7", f}
+	}},
 	{"cvc5-1.0.3", func(f string, s int) []string {
 		return []string{"/usr/bin/cvc5", fmt.Sprintf("--tlimit=%d", s*1000), "--full-saturate-quant", f}
 	}},
@@ -361,6 +364,9 @@ type OblResult struct {
 	FailObl  *Obligation
 	Solver   map[string]int
 	Secs     float64
+	MaxSecs  float64
+	SlowFile string
+	SlowSolver string
 }
 
 // dischargeAll groups obligations by name and decides every path instance.
@@ -421,6 +427,11 @@ func (e *Engine) dischargeAll(s *Solver, obls []*Obligation, workers int) []*Obl
 			defer func() { <-sem }()
 			res := s.Discharge(j.o.Name, j.text)
 			mu.Lock()
+			if res.Secs > j.r.MaxSecs {
+				j.r.MaxSecs = res.Secs
+				j.r.SlowFile = res.File
+				j.r.SlowSolver = res.Solver
+			}
 			j.r.Secs += res.Secs
 			if res.Status == "unsat" {
 				j.r.Solver[res.Solver]++
